@@ -132,9 +132,9 @@ def c05_obligations(tier, seed):
             add_shape(name)
 
     # fully symbolic candidate proofs over symbolic-shape trees (crate::trie)
-    def add_free(name, claim, bound, role, cap=(900, 3000)):
+    def add_free(name, claim, bound, role, cap=(900, 3000), mem_gb=12):
         cfg = "ModelWA" if "_wa_" in name else "ModelEXP"
-        obs.append(kani_ob("C05." + name, claim, "c05::c05_" + name, C05_FUNCS, bound, cap=cap, role=role, inst=cfg, assumes=[IDEAL_HASH]))
+        obs.append(kani_ob("C05." + name, claim, "c05::c05_" + name, C05_FUNCS, bound, cap=cap, role=role, inst=cfg, assumes=[IDEAL_HASH], mem_gb=mem_gb))
     mfree = "a membership proof ALL of whose fields are symbolic (label, hash, every sibling label/value/direction) verifies only if (label, hash) is a real node of the tree"
     nmfree = "a non-membership proof ALL of whose fields are symbolic verifies only if the queried label is not a leaf"
     free_quick = [("m_free_wa_l2_w4_s0", 2, 4, 0), ("m_free_exp_l2_w4_s0", 2, 4, 0), ("m_free_wa_l2_w4_s1", 2, 4, 1)]
@@ -144,7 +144,7 @@ def c05_obligations(tier, seed):
         add_free(name, mfree, "%d leaves (all key sets, symbolic shape), %d-bit labels, %d sibling proofs, every direction pattern; unwind 9, memcmp 34" % (l, w, sib), "m_sound_free")
     if tier == "thorough":
         for name, l, w, sib in [("nm_free_wa_l2_w4_s0", 2, 4, 0), ("nm_free_wa_l2_w4_s1", 2, 4, 1), ("nm_free_exp_l2_w4_s1", 2, 4, 1)]:
-            add_free(name, nmfree, "%d leaves, %d-bit labels, %d sibling proofs; unwind 9, memcmp 34" % (l, w, sib), "nm_sound_free", cap=(1800, 3600))
+            add_free(name, nmfree, "%d leaves, %d-bit labels, %d sibling proofs; unwind 9, memcmp 34" % (l, w, sib), "nm_sound_free", cap=(1800, 3600), mem_gb=28)
     return obs
 
 
